@@ -117,10 +117,20 @@ func (r *FakeReader) ServicePairingDetailUpdate(ski string, detail *api.Connecti
 func (r *FakeReader) AllowWaitingForTrust(ski string) bool { return r.AllowWait }
 
 // FakeMdns implements api.MdnsInterface.
-type FakeMdns struct{ L *Log }
+type FakeMdns struct {
+	L          *Log
+	OnShutdown func() // if set, runs inside Shutdown (what happens while the provider shuts down)
+}
 
 func (m *FakeMdns) Start(cb api.MdnsReportInterface) error { return nil }
-func (m *FakeMdns) Shutdown()                              { m.L.Add("OMdnsShutdown") }
+func (m *FakeMdns) Shutdown() {
+	m.L.Add("OMdnsShutdown")
+	if m.OnShutdown != nil {
+		f := m.OnShutdown
+		m.OnShutdown = nil
+		f()
+	}
+}
 func (m *FakeMdns) AnnounceMdnsEntry() error               { m.L.Add("OMdnsAnnounce"); return nil }
 func (m *FakeMdns) UnannounceMdnsEntry()                   { m.L.Add("OMdnsUnannounce") }
 func (m *FakeMdns) SetAutoAccept(bool)                     {}
